@@ -112,6 +112,9 @@ def run(report, tier, seed, driver, proofs_ok):
         if kind in ("unknown-property-added", "unknown-resource-member-added", "properties-retyped") and modelled and strict and io["outcome"] != "rejected":
             report.violation("oracle", f"{kind}-accepted-in-modelled-resource", op={"resource": res}, impl=io,
                              oracle="C14_strict_errors: unknown members and ill-typed Properties of modelled resources are errors")
+        if kept is not None and kept.Type != res.get("Type"):
+            report.violation("oracle", "resource-type-string-changed-by-parse", op={"resource": res, "strict": strict}, impl={"Type": kept.Type},
+                             oracle="the Type of a parsed resource is the Type written in the template (C14_generic_other)")
         if kept is not None and type(kept).__name__ == "GenericResource" and isinstance(res.get("Properties"), dict):
             extras = kept.Properties.model_extra if kept.Properties is not None else {}
             if list(extras) != list(res["Properties"]):
@@ -135,6 +138,9 @@ def run(report, tier, seed, driver, proofs_ok):
         res = {f"R{j}": valid[n] for j, n in enumerate(names)}
         res["G0"] = {"Type": "Custom::Thing", "Properties": {"A": "b"}}
         res["G1"] = {"Type": "AWS::Lambda::Function", "Properties": {"Code": {"ZipFile": "x"}}}
+        # type strings that are *almost* a modelled one, with properties the modelled class would accept: still unmodelled
+        near = rng.choice(names)
+        res["N0"] = dict(copy.deepcopy(valid[near]), Type=rng.choice([near + " ", " " + near, near + "\n", near.lower(), near + "s"]))
         lax = i % 2 == 1
         damaged_types = []
         if lax:
@@ -177,6 +183,9 @@ def run(report, tier, seed, driver, proofs_ok):
         GenericResource._strict = True
         for label, mm in (("resolve", m2), ("expand_actions", m3)):
             after = {n: type(r).__name__ for n, r in mm.Resources.items()}
+            types_after = {n: r.Type for n, r in mm.Resources.items()}
+            if types_after != {n: r.get("Type") for n, r in res.items()}:
+                report.violation("oracle", f"{label}-changes-a-resource-type-string", op={"resources": res}, impl={"types": {n: t for n, t in types_after.items() if t != res[n].get("Type")}})
             if after != before:
                 report.violation("oracle", f"{label}-changes-a-resource-class", op={"resources": res}, impl={"before": before, "after": after})
     report.notes += [
